@@ -223,6 +223,23 @@ theorem filter_thread_own (t : ThreadId) (ops : List Op) :
   intro op h
   simpa using (List.mem_filter.mp h).2
 
+/-- thread-locality over two start states that agree on `t`'s view -/
+theorem run_thread_local (t : ThreadId) (ops : List Op) (σ σ' : OpState) (h : view t σ = view t σ') :
+    view t (run σ ops).1 = view t (run σ' (ops.filter (·.thread == t))).1 ∧
+    readsOfFrom t σ ops = (run σ' (ops.filter (·.thread == t))).2.map (·.2) := by
+  have a := run_project t ops σ
+  have b := run_project t (ops.filter (·.thread == t)) σ'
+  rw [List.filter_filter] at b
+  simp only [Bool.and_self] at b
+  rw [readsOfFrom_own t σ' _ (filter_thread_own t ops)] at b
+  rw [a.1, a.2, b.1, b.2, h]
+  exact ⟨rfl, rfl⟩
+
+theorem runFrom_append (σ : OpState) (a b : List Op) :
+    runFrom σ (a ++ b)
+      = ((runFrom (runFrom σ a).1 b).1, (runFrom σ a).2 ++ (runFrom (runFrom σ a).1 b).2) := by
+  simp [runFrom_eq, run_append]
+
 /-! ## compiling structured bodies to ops -/
 
 /-- compilation where every `with` block emits its own `__enter__`/`__exit__` pair — also when its body
@@ -380,6 +397,21 @@ theorem depth_append (t : ThreadId) (a b : List Op) (d : Nat) :
   induction a generalizing d with
   | nil => rfl
   | cons op rest ih => cases op <;> simp [depth, ih]
+
+/-- a compiled body, raising or not, leaves the nesting depth where it was -/
+theorem depth_flattenWith (t t' : ThreadId) (b : Body) (d : Nat) :
+    depth t' (flattenWith t b).1 d = d := by
+  induction b generalizing d with
+  | read => simp [flattenWith, depth]
+  | raise => simp [flattenWith, depth]
+  | seq a b iha ihb =>
+    simp only [flattenWith]
+    split
+    · simp [depth_append, iha, ihb]
+    · exact iha d
+  | inject p body ih =>
+    simp only [flattenWith, depth, List.cons_append, depth_append, ih]
+    split <;> simp
 
 /-- the value at the bottom of a thread's stack: what its slot will be once every open block is closed -/
 def bottom (l : Loc) : Option Ctx := (l.1 :: l.2).getLast?
